@@ -1,21 +1,23 @@
-//! Sim-threads (seam N5): real OS threads, exactly one of which holds the baton. All scheduling
-//! decisions are drawn from the seeded generator by the baton holder at instruction boundaries, so
-//! the interleaving is a pure function of the seed; the recorded schedule replays it exactly.
+//! Sim-threads (seam N5): real OS threads, exactly one of which holds the baton. Every scheduling
+//! decision is drawn from the seeded generator by the baton holder at an instruction boundary (or at
+//! an evaluation boundary), so the interleaving is a pure function of the seed; the recorded
+//! schedule, a list of (decision point, from, to), replays it exactly.
 
 use crate::rng::Rng;
 use std::sync::{Condvar, Mutex};
 
 #[derive(Clone, Debug, PartialEq)]
 pub struct Switch {
+    /// index of the scheduling point (number of scheduling points passed before it)
     pub at: u64,
     pub from: usize,
     pub to: usize,
 }
 
 pub enum Policy {
-    /// geometric run lengths with the given mean
+    /// geometric-ish run lengths with the given mean
     Random { mean: u64 },
-    /// PCT-like: `points` change points spread over `horizon` steps
+    /// PCT-like: the baton changes hands exactly at these scheduling points
     ChangePoints { points: Vec<u64> },
     /// replay an explicit schedule
     Replay { switches: Vec<Switch>, next: usize },
@@ -27,7 +29,7 @@ struct Inner {
     current: usize,
     runnable: Vec<bool>,
     countdown: u64,
-    global_step: u64,
+    point: u64,
     schedule: Vec<Switch>,
     aborted: bool,
 }
@@ -51,7 +53,7 @@ impl Sched {
                 current: 0,
                 runnable: vec![true; threads],
                 countdown,
-                global_step: 0,
+                point: 0,
                 schedule: Vec::new(),
                 aborted: false,
             }),
@@ -66,53 +68,38 @@ impl Sched {
         }
     }
 
-    /// Blocks until `tid` holds the baton.
-    pub fn wait_turn(&self, tid: usize) {
-        let mut g = self.lock();
+    fn wait_for<'a>(&'a self, mut g: std::sync::MutexGuard<'a, Inner>, tid: usize) -> std::sync::MutexGuard<'a, Inner> {
         while g.current != tid && !g.aborted {
             g = match self.cvs[tid].wait(g) {
                 Ok(g) => g,
                 Err(p) => p.into_inner(),
             };
         }
+        g
     }
 
-    fn pick_next(g: &mut Inner, from: usize) -> usize {
+    /// Blocks until `tid` holds the baton.
+    pub fn wait_turn(&self, tid: usize) {
+        let g = self.lock();
+        let _g = self.wait_for(g, tid);
+    }
+
+    fn pick_next(g: &mut Inner, fallback: usize) -> usize {
         let candidates: Vec<usize> = (0..g.runnable.len()).filter(|i| g.runnable[*i]).collect();
         if candidates.is_empty() {
-            return from;
+            return fallback;
         }
         candidates[g.rng.usize(candidates.len())]
     }
 
-    fn hand_over(&self, mut g: std::sync::MutexGuard<'_, Inner>, from: usize, to: usize, wait: bool) -> bool {
-        if to == from {
-            return false;
-        }
-        let at = g.global_step;
-        g.schedule.push(Switch { at, from, to });
-        g.current = to;
-        self.cvs[to].notify_one();
-        if wait {
-            while g.current != from && !g.aborted {
-                g = match self.cvs[from].wait(g) {
-                    Ok(g) => g,
-                    Err(p) => p.into_inner(),
-                };
-            }
-        }
-        true
-    }
-
-    /// Called by the baton holder at every instruction boundary. Returns true if it gave the baton away
-    /// (and got it back).
+    /// A scheduling point. Called by the baton holder only. Returns true if the baton went away and came back.
     pub fn maybe_switch(&self, tid: usize) -> bool {
         let mut g = self.lock();
         if g.aborted {
             return false;
         }
-        let step = g.global_step;
-        g.global_step += 1;
+        let at = g.point;
+        g.point += 1;
         let want: Option<usize> = match &mut g.policy {
             Policy::Random { mean } => {
                 let mean = *mean;
@@ -125,14 +112,14 @@ impl Sched {
                 }
             }
             Policy::ChangePoints { points } => {
-                if points.binary_search(&step).is_ok() {
+                if points.binary_search(&at).is_ok() {
                     Some(usize::MAX)
                 } else {
                     None
                 }
             }
             Policy::Replay { switches, next } => {
-                if *next < switches.len() && switches[*next].at == step && switches[*next].from == tid {
+                if *next < switches.len() && switches[*next].at == at {
                     let to = switches[*next].to;
                     *next += 1;
                     Some(to)
@@ -141,41 +128,30 @@ impl Sched {
                 }
             }
         };
-        match want {
-            None => false,
-            Some(to) => {
-                let to = if to == usize::MAX { Self::pick_next(&mut g, tid) } else { to };
-                if !g.runnable.get(to).copied().unwrap_or(false) {
-                    return false;
-                }
-                // the step at which the switch happens is `step`
-                g.global_step = step;
-                let r = self.hand_over(g, tid, to, true);
-                let mut g = self.lock();
-                g.global_step = g.global_step.max(step) + 1;
-                r
-            }
+        let to = match want {
+            None => return false,
+            Some(usize::MAX) => Self::pick_next(&mut g, tid),
+            Some(t) => t,
+        };
+        if to == tid || !g.runnable.get(to).copied().unwrap_or(false) {
+            return false;
         }
+        g.schedule.push(Switch { at, from: tid, to });
+        g.current = to;
+        self.cvs[to].notify_one();
+        let _g = self.wait_for(g, tid);
+        true
     }
 
-    /// Called by the baton holder between evaluations: an explicit scheduling point.
-    pub fn yield_point(&self, tid: usize) -> bool {
-        self.maybe_switch(tid)
-    }
-
-    /// Draw from the shared generator (baton holder only), e.g. to pick the next work item.
-    pub fn draw(&self, n: u64) -> u64 {
-        let mut g = self.lock();
-        g.rng.below(n.max(1))
-    }
-
-    /// The calling thread has no more work: give the baton to somebody else for good.
+    /// The calling thread (baton holder) has no more work: the baton goes to somebody else for good.
     pub fn finish(&self, tid: usize) {
         let mut g = self.lock();
         g.runnable[tid] = false;
-        let next = match &mut g.policy {
+        let at = g.point;
+        g.point += 1;
+        let replayed = match &mut g.policy {
             Policy::Replay { switches, next } => {
-                if *next < switches.len() && switches[*next].from == tid {
+                if *next < switches.len() && switches[*next].at == at {
                     let to = switches[*next].to;
                     *next += 1;
                     Some(to)
@@ -185,12 +161,14 @@ impl Sched {
             }
             _ => None,
         };
-        let to = match next {
+        let to = match replayed {
             Some(t) if g.runnable.get(t).copied().unwrap_or(false) => t,
             _ => Self::pick_next(&mut g, tid),
         };
-        if to != tid {
-            self.hand_over(g, tid, to, false);
+        if to != tid && g.runnable[to] {
+            g.schedule.push(Switch { at, from: tid, to });
+            g.current = to;
+            self.cvs[to].notify_one();
         }
     }
 
@@ -206,7 +184,7 @@ impl Sched {
         self.lock().schedule.clone()
     }
 
-    pub fn global_steps(&self) -> u64 {
-        self.lock().global_step
+    pub fn points(&self) -> u64 {
+        self.lock().point
     }
 }
